@@ -13,7 +13,7 @@ META = {
     "functions": ["gfapy.line.common.cloning.Cloning.clone", "Line.__eq__", "Line.__str__/field_to_s", "FieldData.set/get/delete",
                   "Connection.is_connected/gfa", "OrientedLine.orient/line setters", "CIGAR.Operation", "NumericArray/ByteArray/FieldArray values"],
     "bounds": "every line of two documents covering all record types (H,#,S,L,C,P / S,E,F,G,O,U,custom) and all field/tag datatypes (i,f,Z,A,J nested,H,B int/float, CIGAR, trace, oriented ids, id lists, positions with $, placeholders), plus the virtual segment standing for an undefined identifier, connected to a Gfa or standalone, vlevel 1..3 (decoded or raw strings); x which copy is edited x every edit of a per-value edit catalogue (list append / item assignment, CIGAR operation length := ANY integer, operation code, orientation flip, dict update, nested JSON append, tag set/overwrite/delete, array append); aliasing walk over both value graphs",
-    "timeout": {"quick": 400, "thorough": 1200}, "parts": {"quick": 16, "thorough": 16}},
+    "timeout": {"quick": 400, "thorough": 900}, "parts": {"quick": 16, "thorough": 16}},
  },
 }
 
